@@ -230,7 +230,7 @@ def _ft_check(obs, ref, n):
     return errs
 
 
-def ft_search(n, init, depth):
+def ft_search(n, init, depth, deltas=(1, -1, 3)):
     from solvor.utils.data_structures import FenwickTree
 
     r = new_result()
@@ -257,7 +257,7 @@ def ft_search(n, init, depth):
             for e in _ft_check(_ft_observe(o, n), ref0, n):
                 viol.append(((), ev, e + " (the tree shares state with the list it was built from)"))
                 break
-    upd = [("update", i, d) for i in range(n) for d in (1, -1, 3)]
+    upd = [("update", i, d) for i in range(n) for d in deltas]
     qry = [("prefix", i) for i in range(n)] + [("range_sum", l, h) for l in range(n) for h in range(l, n)]
     s0 = (freeze(obj0), ref0)
     seen = {s0: ()}
@@ -450,6 +450,9 @@ def _uf_chunk(params, lo, hi):
     return out
 
 
+TINY = 2.0**-40
+
+
 def _ft_cases(nmax, depth):
     cases = [(n, None, depth) for n in range(1, nmax + 1)]
     for n in range(1, nmax + 1):
@@ -460,14 +463,20 @@ def _ft_cases(nmax, depth):
         inits = [None, (1,) * n, tuple(i % 2 for i in range(n)), tuple(range(1, n + 1))] + [tuple(3 if i == k else 0 for i in range(n)) for k in range(n)]
         for init in inits:
             cases.append((n, init, min(depth, 3) - (1 if n >= 8 else 0)))
+    # values of very different magnitude (all dyadic, every sum below 16 with 2^-40 as the finest unit: exact in a double):
+    # entries and differences far below any absolute tolerance a numeric routine might apply
+    T = TINY
+    for n in (1, 2, 3):
+        for init in [None] + list(itertools.product((0.0, T, 1.0), repeat=n)):
+            cases.append((n, init, min(depth, 3), (T, -T, 1.0)))
     return cases
 
 
 def _ft_chunk(params, lo, hi):
     out = new_result()
     for k in range(lo, hi):
-        n, init, depth = params[k]
-        r = ft_search(n, init, depth)
+        n, init, depth = params[k][:3]
+        r = ft_search(n, init, depth, *params[k][3:])
         if not out["samples"]:
             r["samples"].append({"structure": "FenwickTree", "n": n, "init": init, "depth": depth})
         _merge(out, r)
